@@ -1,5 +1,5 @@
 (* C10 — proofs about the n-step fusion loop and the paired buffers. *)
-From Coq Require Import List Arith Lia Bool QArith Lqa.
+From Coq Require Import List Arith Lia Bool QArith Qpower Lqa.
 Import ListNotations.
 From AgileV Require Import Base.Prelude C09.Model C09.Proofs C10.Model.
 Local Open Scope nat_scope.
@@ -39,10 +39,13 @@ Definition width (E : nat) (w : list vtr) : Prop := Forall (fun v => length v = 
 
 (* ---------- the loop: what [accum] computes, environment by environment ---------- *)
 (* sum_{j<m} g^(i+j) * r_{j,e} over the first m elements of w *)
-Fixpoint dsum (g : Q) (i e : nat) (w : list vtr) (m : nat) : Q :=
-  match m, w with
-  | S m', t :: r => (qpow g i * rw (nth e t dcell) + dsum g (S i) e r m')%Q
-  | _, _ => 0%Q
+Fixpoint dsum (g : Q) (i e : nat) (w : list vtr) (m : nat) {struct m} : Q :=
+  match m with
+  | O => 0%Q
+  | S m' => match w with
+            | [] => 0%Q
+            | t :: r => (qpow g i * rw (nth e t dcell) + dsum g (S i) e r m')%Q
+            end
   end.
 
 (* the cell whose next_obs / done end up in the record: element m-1 of w, or the accumulator *)
@@ -59,19 +62,19 @@ Lemma accum_spec g E e : forall rest i acc,
   nx r = nx (lastc e a rest (cut rest)) /\ dn r = dn (lastc e a rest (cut rest)).
 Proof.
   induction rest as [|t rest IH]; intros i acc Hacc Hw He; cbn [accum cut].
-  - cbn. repeat split; auto. (try ring; lra).
+  - cbn. repeat split; auto. ring.
   - inversion Hw as [|? ? Ht Hw']; subst.
     assert (Hl : length acc = length t) by lia.
     assert (He' : (e < length acc)) by lia.
     destruct (any_done t) eqn:Hd.
     + cbv zeta. rewrite nth_fuse_step by auto. rewrite fuse_step_length by auto.
-      cbn. repeat split; auto. (try ring; lra).
+      cbn [dsum lastc fuse1 rw ob ac nx dn nth Nat.sub]. repeat split; auto. ring.
     + specialize (IH (S i) (fuse_step (qpow g (S i)) acc t)).
       rewrite fuse_step_length in IH by auto.
       specialize (IH eq_refl Hw' He). cbv zeta in IH. rewrite nth_fuse_step in IH by auto.
       destruct IH as (H0 & H1 & H2 & H3 & H4 & H5).
       cbv zeta. repeat split; auto.
-      * rewrite H3. cbn [dsum fuse1 rw]. (try ring; lra).
+      * rewrite H3. cbn [dsum fuse1 rw]. ring.
       * rewrite H4. destruct (cut rest); reflexivity.
       * rewrite H5. destruct (cut rest); reflexivity.
 Qed.
@@ -95,7 +98,7 @@ Proof.
   destruct (any_done t) eqn:Hd; [right; exact Hd|].
   destruct IH as [IH|IH]; [left; lia|]. right.
   destruct (cut r) eqn:Ec; cbn in *.
-  - destruct r; cbn in *; [discriminate|]. destruct (any_done l); discriminate.
+  - destruct r as [|v r']; cbn in *; [discriminate|]. destruct (any_done v); discriminate.
   - rewrite Nat.sub_0_r in IH. exact IH.
 Qed.
 
@@ -128,7 +131,7 @@ Proof.
   inversion Hw as [|? ? Hf Hr]; subst.
   unfold n_step_info, disc_sum, cellat. cbn [cut].
   destruct (any_done first) eqn:Hd.
-  - cbn. repeat split; auto. (try ring; lra).
+  - cbn. repeat split; auto. ring.
   - pose proof (accum_spec g (length first) e rest 0 first eq_refl Hr He) as H.
     cbv zeta in H. destruct H as (H0 & H1 & H2 & H3 & H4 & H5).
     cbv zeta. cbn [nth]. repeat split; auto.
@@ -137,8 +140,502 @@ Proof.
       apply Qplus_comp; [ring|].
       generalize (seq 0 (cut rest)). intros l.
       induction l as [|x l IHl]; cbn [map fold_right]; [reflexivity|]. rewrite IHl. reflexivity.
-    + rewrite H4. cbn [Nat.sub]. rewrite Nat.sub_0_r. unfold lastc.
-      destruct (cut rest) eqn:Ec; cbn; [reflexivity|]. rewrite Nat.sub_0_r. reflexivity.
-    + rewrite H5. cbn [Nat.sub]. rewrite Nat.sub_0_r. unfold lastc.
-      destruct (cut rest) eqn:Ec; cbn; [reflexivity|]. rewrite Nat.sub_0_r. reflexivity.
+    + rewrite H4. replace (S (cut rest) - 1) with (cut rest) by lia. unfold lastc.
+      destruct (cut rest) eqn:Ec; reflexivity.
+    + rewrite H5. replace (S (cut rest) - 1) with (cut rest) by lia. unfold lastc.
+      destruct (cut rest) eqn:Ec; reflexivity.
+Qed.
+
+(* ---------- windows of a stream ---------- *)
+Lemma window_nth n xs k j : j < n -> nth j (window n xs k) [] = nth (k + j) xs [].
+Proof. intros H. unfold window. rewrite nth_firstn_lt by exact H. apply nth_skipn_add. Qed.
+
+Lemma window_length n xs k : k + n <= length xs -> length (window n xs k) = n.
+Proof. intros H. unfold window. rewrite firstn_length, skipn_length. lia. Qed.
+
+Lemma Forall_firstn {T} (P : T -> Prop) n l : Forall P l -> Forall P (firstn n l).
+Proof. revert n; induction l as [|a l IH]; intros [|n] H; cbn; auto. inversion H; subst. constructor; auto. Qed.
+Lemma Forall_skipn {T} (P : T -> Prop) n l : Forall P l -> Forall P (skipn n l).
+Proof. revert n; induction l as [|a l IH]; intros [|n] H; cbn; auto. inversion H; subst. auto. Qed.
+
+Lemma window_width E n xs k : width E xs -> width E (window n xs k).
+Proof. intros H. unfold window, width. apply Forall_firstn, Forall_skipn, H. Qed.
+
+Lemma window_cellat n xs k j e : j < n -> cellat (window n xs k) j e = cellat xs (k + j) e.
+Proof. intros H. unfold cellat. rewrite window_nth by exact H. reflexivity. Qed.
+
+(* the admissible window lengths of the property: at least one and at most n transitions are
+   summed; env e is not done at any summed step but possibly the last one; the sum stops before n
+   only because some environment ended at the last summed step *)
+Definition ok_window (n : nat) (xs : list vtr) (e k m : nat) : Prop :=
+  1 <= m <= n /\
+  (forall j, j + 1 < m -> dn (cellat xs (k + j) e) = false) /\
+  (m = n \/ exists e', dn (cellat xs (k + m - 1) e') = true).
+
+Lemma window_ok n xs k e : 1 <= n -> k + n <= length xs -> ok_window n xs e k (cut (window n xs k)).
+Proof.
+  intros Hn Hk. pose proof (window_length n xs k Hk) as Hlen.
+  assert (Hne : window n xs k <> []) by (intros E0; rewrite E0 in Hlen; cbn in Hlen; lia).
+  pose proof (cut_pos _ Hne) as Hp. pose proof (cut_le (window n xs k)) as Hle. rewrite Hlen in Hle.
+  split; [lia|]. split.
+  - intros j Hj. pose proof (cut_before _ _ Hj) as Hb.
+    rewrite window_nth in Hb by lia. unfold cellat. apply any_done_false_nth. exact Hb.
+  - destruct (cut_stop (window n xs k)) as [Hs|Hs]; [left; lia|right].
+    rewrite window_nth in Hs by lia. destruct (any_done_true_ex _ Hs) as (e' & _ & He').
+    exists e'. unfold cellat. replace (k + cut (window n xs k) - 1) with (k + (cut (window n xs k) - 1)) by lia.
+    exact He'.
+Qed.
+
+Lemma disc_sum_window g n xs k e m : m <= n ->
+  (disc_sum g (window n xs k) 0 e m == disc_sum g xs k e m)%Q.
+Proof.
+  intros Hm. unfold disc_sum.
+  assert (H : forall l, Forall (fun i => i < n) l ->
+    (fold_right Qplus 0 (map (fun i => qpow g i * rw (cellat (window n xs k) (0 + i) e)) l) ==
+     fold_right Qplus 0 (map (fun i => qpow g i * rw (cellat xs (k + i) e)) l))%Q).
+  { induction l as [|x l IH]; intros HF; cbn [map fold_right]; [reflexivity|].
+    inversion HF; subst. rewrite IH by auto. cbn [Nat.add]. rewrite window_cellat by auto. reflexivity. }
+  apply H. apply Forall_forall. intros i Hi. apply in_seq in Hi. lia.
+Qed.
+
+(* the fused record of window k, stated on the stream *)
+Theorem info_window_spec g E n xs k e :
+  1 <= n -> k + n <= length xs -> width E xs -> e < E ->
+  let r := nth e (n_step_info g (window n xs k)) dcell in
+  let m := cut (window n xs k) in
+  length (n_step_info g (window n xs k)) = E /\
+  ok_window n xs e k m /\
+  ob r = ob (cellat xs k e) /\ ac r = ac (cellat xs k e) /\
+  (rw r == disc_sum g xs k e m)%Q /\
+  nx r = nx (cellat xs (k + m - 1) e) /\ dn r = dn (cellat xs (k + m - 1) e).
+Proof.
+  intros Hn Hk Hw He. cbv zeta.
+  pose proof (window_length n xs k Hk) as Hlen.
+  assert (Hne : window n xs k <> []) by (intros E0; rewrite E0 in Hlen; cbn in Hlen; lia).
+  pose proof (info_spec g E e _ Hne (window_width E n xs k Hw) He) as H. cbv zeta in H.
+  destruct H as (H0 & H1 & H2 & H3 & H4 & H5).
+  pose proof (window_ok n xs k e Hn Hk) as Hok.
+  pose proof Hok as ((Hm1 & Hm2) & _).
+  rewrite window_cellat in H1, H2 by lia. rewrite Nat.add_0_r in H1, H2.
+  rewrite window_cellat in H4, H5 by lia.
+  replace (k + (cut (window n xs k) - 1)) with (k + cut (window n xs k) - 1) in H4, H5 by lia.
+  repeat split; auto; try lia; try apply Hok.
+  rewrite H3. apply disc_sum_window. lia.
+Qed.
+
+(* ---------- nothing after a terminal step is mixed in ---------- *)
+Lemma accum_prefix g : forall a rest rest' i acc,
+  firstn a rest = firstn a rest' -> (exists j, j < a /\ any_done (nth j rest []) = true) ->
+  accum g i acc rest = accum g i acc rest'.
+Proof.
+  induction a as [|a IH]; intros rest rest' i acc Hf (j & Hj & Hd); [lia|].
+  destruct rest as [|t r].
+  - destruct j; cbn in Hd; discriminate.
+  - destruct rest' as [|t' r']; cbn in Hf; [discriminate|]. injection Hf as <- Hf.
+    cbn [accum]. destruct (any_done t) eqn:Ht; [reflexivity|].
+    destruct j as [|j]; [cbn [nth] in Hd; congruence|].
+    apply IH; auto. exists j. split; [lia|exact Hd].
+Qed.
+
+Lemma info_prefix g a w w' :
+  firstn a w = firstn a w' -> (exists j, j < a /\ any_done (nth j w []) = true) ->
+  n_step_info g w = n_step_info g w'.
+Proof.
+  intros Hf (j & Hj & Hd). destruct a as [|a]; [lia|].
+  destruct w as [|t r]; [destruct j; cbn in Hd; discriminate|].
+  destruct w' as [|t' r']; cbn in Hf; [discriminate|]. injection Hf as <- Hf.
+  cbn [n_step_info]. destruct (any_done t) eqn:Ht; [reflexivity|].
+  destruct j as [|j]; [cbn [nth] in Hd; congruence|].
+  apply (accum_prefix g a); auto. exists j. split; [lia|exact Hd].
+Qed.
+
+Theorem no_leak_window g n xs ys j k e :
+  firstn (S j) xs = firstn (S j) ys -> dn (cellat xs j e) = true ->
+  k <= j -> j < k + n ->
+  n_step_info g (window n xs k) = n_step_info g (window n ys k).
+Proof.
+  intros Hf Hd Hk Hjn.
+  apply (info_prefix g (S j - k)).
+  - unfold window. rewrite !firstn_firstn.
+    replace (Nat.min (S j - k) n) with (S j - k) by lia.
+    rewrite !firstn_skipn_comm. replace (k + (S j - k)) with (S j) by lia. rewrite Hf. reflexivity.
+  - exists (j - k). split; [lia|]. rewrite window_nth by lia. replace (k + (j - k)) with j by lia.
+    unfold cellat in Hd. unfold any_done.
+    apply existsb_exists. exists (nth e (nth j xs []) dcell). split; [|exact Hd].
+    destruct (le_lt_dec (length (nth j xs [])) e) as [Hge|Hlt].
+    + rewrite nth_overflow in Hd by exact Hge. cbn in Hd. discriminate.
+    + apply nth_In. exact Hlt.
+Qed.
+
+(* ---------- the pinned loop (before fix 6825082) leaks the next episode ---------- *)
+Definition w_bad : list vtr :=
+  [ [C 1 1 2 1 true]; [C 2 2 4 2 false]; [C 3 3 8 3 false] ].
+
+Lemma pinned_leaks :
+  exists g n xs k e, 1 <= n /\ k + n <= length xs /\ width 1 xs /\ e < 1 /\
+    dn (cellat xs k e) = true /\
+    let r := nth e (n_step_info_pinned g (window n xs k)) dcell in
+    nx r <> nx (cellat xs k e) /\ ~ (rw r == rw (cellat xs k e))%Q.
+Proof.
+  exists (1#2)%Q, 3, w_bad, 0, 0.
+  split; [lia|]. split; [cbn; lia|]. split; [repeat constructor|]. split; [lia|]. split; [reflexivity|].
+  cbv zeta. split.
+  - cbn. discriminate.
+  - intros H. vm_compute in H. discriminate.
+Qed.
+
+(* ================= the paired buffers over a whole stream ================= *)
+(* number of complete windows after a stream *)
+Definition count (n : nat) (xs : list vtr) : nat := length xs + 1 - n.
+(* batches pushed into the n-step ring buffer / into the 1-step ring buffer, oldest first *)
+Definition hist_n (g : Q) (n : nat) (xs : list vtr) : list vtr :=
+  map (fun k => n_step_info g (window n xs k)) (seq 0 (count n xs)).
+Definition hist_1 (n : nat) (xs : list vtr) : list vtr := firstn (count n xs) xs.
+
+Lemma window_app n xs ys k : k + n <= length xs -> window n (xs ++ ys) k = window n xs k.
+Proof.
+  intros H. unfold window. rewrite skipn_app, firstn_app, skipn_length.
+  replace (n - (length xs - k)) with 0 by lia. cbn. apply app_nil_r.
+Qed.
+
+Lemma window_last n l : n <= length l -> window n l (length l - n) = lastn n l.
+Proof. intros H. unfold window, lastn. apply firstn_all2. rewrite skipn_length. lia. Qed.
+
+Lemma firstn_S_nth {T} (d : T) : forall a l, a < length l -> firstn (S a) l = firstn a l ++ [nth a l d].
+Proof.
+  induction a as [|a IH]; intros [|x l] H; cbn in *; try lia; auto.
+  f_equal. apply IH. lia.
+Qed.
+
+Lemma hd_skipn {T} (d : T) a l : hd d (skipn a l) = nth a l d.
+Proof.
+  replace (hd d (skipn a l)) with (nth 0 (skipn a l) d) by (destruct (skipn a l); reflexivity).
+  rewrite nth_skipn_add. f_equal. lia.
+Qed.
+
+Lemma hist_n_snoc g n xs t : 1 <= n -> n <= length xs + 1 ->
+  hist_n g n (xs ++ [t]) = hist_n g n xs ++ [n_step_info g (lastn n (xs ++ [t]))].
+Proof.
+  intros Hn Hl. unfold hist_n, count. rewrite app_length. cbn [length].
+  replace (length xs + 1 + 1 - n) with (S (length xs + 1 - n)) by lia.
+  rewrite seq_S, map_app. cbn [map Nat.add]. f_equal.
+  - apply map_ext_in. intros k Hk. apply in_seq in Hk. rewrite window_app by lia. reflexivity.
+  - f_equal. f_equal. rewrite <- window_last by (rewrite app_length; cbn; lia).
+    rewrite app_length. cbn [length]. f_equal; lia.
+Qed.
+
+Lemma hist_1_snoc n xs t : 1 <= n -> n <= length xs + 1 ->
+  hist_1 n (xs ++ [t]) = hist_1 n xs ++ [hd [] (lastn n (xs ++ [t]))].
+Proof.
+  intros Hn Hl. unfold hist_1, count. rewrite app_length. cbn [length].
+  replace (length xs + 1 + 1 - n) with (S (length xs + 1 - n)) by lia.
+  rewrite (firstn_S_nth ([] : vtr)) by (rewrite app_length; cbn; lia).
+  f_equal.
+  - rewrite firstn_app. replace (length xs + 1 - n - length xs) with 0 by lia. cbn. apply app_nil_r.
+  - f_equal. unfold lastn. rewrite hd_skipn, app_length. cbn [length]. f_equal; lia.
+Qed.
+
+Lemma hist_small g n xs : length xs < n -> hist_n g n xs = [] /\ hist_1 n xs = [].
+Proof. intros H. unfold hist_n, hist_1, count. replace (length xs + 1 - n) with 0 by lia. split; reflexivity. Qed.
+
+Lemma lastn_width E n l : width E l -> width E (lastn n l).
+Proof. intros H. unfold lastn. apply Forall_skipn, H. Qed.
+
+Record RunInv (g : Q) (n c : nat) (xs : list vtr) (s : pstate) : Prop := {
+  ri_win : win s = lastn n xs;
+  ri_n : Inv c (concat (hist_n g n xs)) (nbuf s);
+  ri_1 : Inv c (concat (hist_1 n xs)) (mem s);
+  ri_ret : ret s = if length xs <? n then None else Some (nth (length xs - n) xs [])
+}.
+
+Lemma run_inv_init g n c : 0 < c -> 1 <= n -> RunInv g n c [] (pinit c).
+Proof.
+  intros Hc Hn. destruct (hist_small g n []) as [E1 E2]; [cbn; lia|].
+  constructor; cbn [win nbuf mem ret pinit].
+  - reflexivity.
+  - rewrite E1. apply inv_init; auto.
+  - rewrite E2. apply inv_init; auto.
+  - cbn [length]. destruct (Nat.ltb_spec 0 n); [reflexivity|lia].
+Qed.
+
+Lemma run_inv_step g n c E xs s t :
+  0 < E -> E <= c -> 1 <= n -> width E (xs ++ [t]) ->
+  RunInv g n c xs s -> RunInv g n c (xs ++ [t]) (pair_step (n_step_info g) n s t).
+Proof.
+  intros HE HEc Hn Hw [Hwin HIn HI1 Hret].
+  assert (Hc : 0 < c) by lia.
+  unfold pair_step, ns_add. rewrite Hwin. unfold dq_append. rewrite lastn_app_lastn.
+  rewrite lastn_length, app_length. cbn [length].
+  destruct (Nat.ltb_spec (Nat.min n (length xs + 1)) n) as [Hlt|Hge].
+  - (* window not full yet: nothing stored, None returned *)
+    assert (Hs : length (xs ++ [t]) < n) by (rewrite app_length; cbn; lia).
+    destruct (hist_small g n (xs ++ [t]) Hs) as [E1 E2].
+    assert (Hs' : length xs < n) by lia.
+    destruct (hist_small g n xs Hs') as [E3 E4].
+    constructor; cbn [win nbuf mem ret].
+    + reflexivity.
+    + rewrite E1. rewrite E3 in HIn. exact HIn.
+    + rewrite E2. rewrite E4 in HI1. exact HI1.
+    + destruct (Nat.ltb_spec (length (xs ++ [t])) n); [reflexivity|lia].
+  - assert (Hl : n <= length xs + 1) by lia.
+    constructor; cbn [win nbuf mem ret].
+    + reflexivity.
+    + rewrite hist_n_snoc by auto. rewrite concat_app. cbn [concat]. rewrite app_nil_r.
+      apply inv_add; auto.
+      assert (Hne : lastn n (xs ++ [t]) <> []).
+      { intros E0. apply (f_equal (@length _)) in E0. rewrite lastn_length, app_length in E0. cbn in E0. lia. }
+      destruct (info_spec g E 0 _ Hne (lastn_width E n _ Hw) HE) as (H0 & _). lia.
+    + rewrite hist_1_snoc by auto. rewrite concat_app. cbn [concat]. rewrite app_nil_r.
+      apply inv_add; auto.
+      unfold lastn. rewrite hd_skipn.
+      destruct (le_lt_dec (length (xs ++ [t])) (length (xs ++ [t]) - n)) as [Hover|Hin].
+      * rewrite app_length in Hover. cbn in Hover. lia.
+      * unfold width in Hw. rewrite Forall_forall in Hw. rewrite (Hw _ (nth_In _ _ Hin)). exact HEc.
+    + destruct (Nat.ltb_spec (length (xs ++ [t])) n) as [H|H]; [rewrite app_length in H; cbn in H; lia|].
+      unfold lastn. rewrite hd_skipn. reflexivity.
+Qed.
+
+Lemma width_app_l E (xs ys : list vtr) : width E (xs ++ ys) -> width E xs.
+Proof. intros H. apply Forall_app in H. apply H. Qed.
+
+Lemma fold_left_snoc {S T} (f : S -> T -> S) l x s : fold_left f (l ++ [x]) s = f (fold_left f l s) x.
+Proof. rewrite fold_left_app. reflexivity. Qed.
+
+(* every reachable state of the buffer pair satisfies the invariant *)
+Theorem run_inv g n c E xs :
+  0 < E -> E <= c -> 1 <= n -> width E xs ->
+  RunInv g n c xs (pair_run (n_step_info g) n c xs).
+Proof.
+  intros HE HEc Hn. induction xs as [|t xs IH] using rev_ind; intros Hw.
+  - apply run_inv_init; lia.
+  - unfold pair_run. rewrite fold_left_snoc. apply (run_inv_step g n c E); auto.
+    apply IH. eapply width_app_l; eauto.
+Qed.
+
+(* ---------- rows of the ring buffers: row k*E+e is environment e of batch k ---------- *)
+Lemma concat_uniform_length E (l : list vtr) : width E l -> length (concat l) = length l * E.
+Proof. induction 1 as [|v l Hv _ IH]; cbn; auto. rewrite app_length, IH, Hv. reflexivity. Qed.
+
+Lemma concat_uniform_nth_error E : forall (l : list vtr) k e,
+  width E l -> k < length l -> e < E ->
+  nth_error (concat l) (k * E + e) = nth_error (nth k l []) e.
+Proof.
+  induction l as [|v l IH]; intros k e Hw Hk He; cbn in Hk; [lia|].
+  inversion Hw as [|? ? Hv Hw']; subst. destruct k as [|k]; cbn [concat nth].
+  - cbn. apply nth_error_app1. lia.
+  - rewrite nth_error_app2 by (cbn; lia).
+    replace (S k * length v + e - length v) with (k * length v + e) by (cbn; lia).
+    apply IH; auto. lia.
+Qed.
+
+Lemma count_le n xs : 1 <= n -> count n xs <= length xs.
+Proof. unfold count. lia. Qed.
+
+Lemma hist_n_length g n xs : length (hist_n g n xs) = count n xs.
+Proof. unfold hist_n. rewrite map_length, seq_length. reflexivity. Qed.
+
+Lemma hist_n_nth g n xs k : k < count n xs -> nth k (hist_n g n xs) [] = n_step_info g (window n xs k).
+Proof. intros H. unfold hist_n. apply (nth_map_seq (fun k => n_step_info g (window n xs k))). exact H. Qed.
+
+Lemma hist_n_width g E n xs : 0 < E -> 1 <= n -> width E xs -> width E (hist_n g n xs).
+Proof.
+  intros HE Hn Hw. unfold hist_n, width. apply Forall_forall. intros v Hv.
+  apply in_map_iff in Hv. destruct Hv as (k & <- & Hk). apply in_seq in Hk. unfold count in Hk.
+  assert (Hkn : k + n <= length xs) by lia.
+  pose proof (window_length n xs k Hkn) as Hlen.
+  assert (Hne : window n xs k <> []) by (intros E0; rewrite E0 in Hlen; cbn in Hlen; lia).
+  destruct (info_spec g E 0 _ Hne (window_width E n xs k Hw) HE) as (H0 & _). exact H0.
+Qed.
+
+Lemma hist_1_length n xs : 1 <= n -> length (hist_1 n xs) = count n xs.
+Proof. intros Hn. unfold hist_1. rewrite firstn_length. pose proof (count_le n xs Hn). lia. Qed.
+
+Lemma hist_1_nth n xs k : k < count n xs -> nth k (hist_1 n xs) [] = nth k xs [].
+Proof. intros H. unfold hist_1. apply nth_firstn_lt. exact H. Qed.
+
+Lemma hist_1_width E n xs : width E xs -> width E (hist_1 n xs).
+Proof. intros H. unfold hist_1. apply Forall_firstn, H. Qed.
+
+Lemma nth_error_nth_lt {T} (l : list T) e d : e < length l -> nth_error l e = Some (nth e l d).
+Proof. intros H. apply nth_error_nth'. exact H. Qed.
+
+(* The main theorem on the stored data.  After ANY stream xs (all transitions of width E <= cap),
+   for every window k that is complete (k + n <= |xs|) and still among the last cap rows, and every
+   environment e: slot (k*E+e) mod cap of the n-step buffer holds the record r described by the
+   property, and the SAME slot of the 1-step buffer holds raw transition k of environment e. *)
+Theorem stored_spec g n c E xs k e :
+  0 < E -> E <= c -> 1 <= n -> width E xs ->
+  k + n <= length xs -> e < E -> count n xs * E <= (k * E + e) + c ->
+  let s := pair_run (n_step_info g) n c xs in
+  let slot := (k * E + e) mod c in
+  let m := cut (window n xs k) in
+  exists r,
+    nth slot (store (nbuf s)) None = Some r /\
+    nth slot (store (mem s)) None = Some (cellat xs k e) /\
+    ok_window n xs e k m /\
+    ob r = ob (cellat xs k e) /\ ac r = ac (cellat xs k e) /\
+    (rw r == disc_sum g xs k e m)%Q /\
+    nx r = nx (cellat xs (k + m - 1) e) /\ dn r = dn (cellat xs (k + m - 1) e).
+Proof.
+  intros HE HEc Hn Hw Hk He Hlive. cbv zeta.
+  destruct (run_inv g n c E xs HE HEc Hn Hw) as [_ HIn HI1 _].
+  assert (Hkc : k < count n xs) by (unfold count; lia).
+  pose proof (info_window_spec g E n xs k e Hn Hk Hw He) as Hspec. cbv zeta in Hspec.
+  destruct Hspec as (Hlen & Hok & Hrest).
+  exists (nth e (n_step_info g (window n xs k)) dcell). split; [|split; [|split; [exact Hok|exact Hrest]]].
+  - apply (inv_recent _ _ _ HIn).
+    + rewrite (concat_uniform_nth_error E) by (rewrite ?hist_n_length; auto using hist_n_width).
+      rewrite hist_n_nth by exact Hkc. apply nth_error_nth_lt. lia.
+    + rewrite (concat_uniform_length E) by auto using hist_n_width. rewrite hist_n_length. exact Hlive.
+  - apply (inv_recent _ _ _ HI1).
+    + rewrite (concat_uniform_nth_error E) by (rewrite ?hist_1_length; auto using hist_1_width).
+      rewrite hist_1_nth by exact Hkc. unfold cellat. apply nth_error_nth_lt.
+      assert (Hin : k < length xs) by lia.
+      unfold width in Hw. rewrite Forall_forall in Hw. rewrite (Hw _ (nth_In _ _ Hin)). exact He.
+    + rewrite (concat_uniform_length E) by auto using hist_1_width. rewrite hist_1_length by exact Hn. exact Hlive.
+Qed.
+
+(* lengths of the two buffers agree and equal min(#windows * E, cap); the value returned by the
+   last add is raw transition |xs| - n (None while fewer than n transitions were seen) *)
+Theorem lens_and_return g n c E xs :
+  0 < E -> E <= c -> 1 <= n -> width E xs ->
+  let s := pair_run (n_step_info g) n c xs in
+  size (nbuf s) = Nat.min (count n xs * E) c /\ size (mem s) = Nat.min (count n xs * E) c /\
+  cursor (nbuf s) = cursor (mem s) /\
+  ret s = if length xs <? n then None else Some (nth (length xs - n) xs []).
+Proof.
+  intros HE HEc Hn Hw. cbv zeta.
+  destruct (run_inv g n c E xs HE HEc Hn Hw) as [_ HIn HI1 Hret].
+  pose proof (inv_size _ _ _ HIn) as S1. pose proof (inv_size _ _ _ HI1) as S2.
+  pose proof (inv_cur _ _ _ HIn) as C1. pose proof (inv_cur _ _ _ HI1) as C2.
+  rewrite (concat_uniform_length E) in S1, C1 by auto using hist_n_width.
+  rewrite (concat_uniform_length E) in S2, C2 by auto using hist_1_width.
+  rewrite hist_n_length in S1, C1. rewrite hist_1_length in S2, C2 by exact Hn.
+  repeat split; auto. congruence.
+Qed.
+
+(* stored-level no-leak: the k-th batch pushed into the n-step buffer is the same for two streams
+   that agree up to and including a terminal step j inside window k *)
+Theorem no_leak_stored g n xs ys j k e :
+  firstn (S j) xs = firstn (S j) ys -> dn (cellat xs j e) = true ->
+  k <= j -> j < k + n -> k + n <= length xs -> k + n <= length ys ->
+  nth k (hist_n g n xs) [] = nth k (hist_n g n ys) [].
+Proof.
+  intros Hf Hd Hkj Hjn Hx Hy.
+  rewrite !hist_n_nth by (unfold count; lia). eapply no_leak_window; eauto.
+Qed.
+
+(* ---------- the discount weights are the powers of gamma ---------- *)
+Lemma qpow_Qpower g i : (qpow g i == g ^ Z.of_nat i)%Q.
+Proof.
+  induction i as [|i IH]; [reflexivity|].
+  cbn [qpow]. rewrite IH. rewrite Nat2Z.inj_succ. unfold Z.succ.
+  rewrite Qpower_plus' by lia. rewrite Qmult_comm. apply Qmult_comp; [reflexivity|].
+  cbn. reflexivity.
+Qed.
+
+Theorem disc_sum_powers g xs k e m :
+  (disc_sum g xs k e m ==
+   fold_right Qplus 0 (map (fun i => g ^ Z.of_nat i * rw (cellat xs (k + i) e)) (seq 0 m)))%Q.
+Proof.
+  unfold disc_sum. generalize (seq 0 m). intros l.
+  induction l as [|x l IH]; cbn [map fold_right]; [reflexivity|].
+  rewrite IH, qpow_Qpower. reflexivity.
+Qed.
+
+(* ---------- alignment of the two buffers (what Rainbow's combined loss relies on) ---------- *)
+Theorem aligned_lemma g n c E xs k e :
+  0 < E -> E <= c -> 1 <= n -> width E xs ->
+  k + n <= length xs -> e < E -> count n xs * E <= (k * E + e) + c ->
+  let s := pair_run (n_step_info g) n c xs in
+  let slot := (k * E + e) mod c in
+  exists r y,
+    nth slot (store (nbuf s)) None = Some r /\ nth slot (store (mem s)) None = Some y /\
+    y = cellat xs k e /\ ob r = ob y /\ ac r = ac y.
+Proof.
+  intros HE HEc Hn Hw Hk He Hlive. cbv zeta.
+  destruct (stored_spec g n c E xs k e HE HEc Hn Hw Hk He Hlive) as (r & H1 & H2 & _ & H3 & H4 & _).
+  exists r, (cellat xs k e). repeat split; auto.
+Qed.
+
+(* every stored record starts from an observed (observation, action) pair: batch k of the n-step
+   buffer and raw transition k describe the same (observation, action) in every environment *)
+Definition obac (x : cell) : nat * nat := (ob x, ac x).
+
+Theorem starts_observed_lemma g E n xs k :
+  0 < E -> 1 <= n -> width E xs -> k + n <= length xs ->
+  map obac (nth k (hist_n g n xs) []) = map obac (nth k xs []).
+Proof.
+  intros HE Hn Hw Hk. rewrite hist_n_nth by (unfold count; lia).
+  assert (Hin : k < length xs) by lia.
+  assert (Hlk : length (nth k xs []) = E).
+  { unfold width in Hw. rewrite Forall_forall in Hw. apply Hw, nth_In, Hin. }
+  destruct (info_window_spec g E n xs k 0 Hn Hk Hw HE) as (Hlen & _).
+  apply nth_ext with (d := obac dcell) (d' := obac dcell).
+  - rewrite !map_length. lia.
+  - intros e He. rewrite map_length, Hlen in He. rewrite !map_nth.
+    destruct (info_window_spec g E n xs k e Hn Hk Hw He) as (_ & _ & H1 & H2 & _).
+    unfold obac. unfold cellat in H1, H2. rewrite H1, H2. reflexivity.
+Qed.
+
+(* ---------- the converse direction: EVERY stored slot holds such a record ---------- *)
+(* which history position a live slot of a ring buffer holds *)
+Lemma slot_position c k i : 0 < c -> i < Nat.min k c ->
+  exists p, p mod c = i /\ p < k /\ k <= p + c.
+Proof.
+  intros Hc Hi.
+  set (base := k - Nat.min k c).
+  exists (base + (i + c - base mod c) mod c).
+  destruct (mod_decomp c base Hc) as (q & r & Eb & Hr & Em & _). rewrite Em.
+  assert (Hic : i < c) by lia.
+  rewrite (modc c r i) by lia. destruct (Nat.ltb_spec i r).
+  - split. { rewrite Eb. replace (q * c + r + (i + c - r)) with ((q + 1) * c + i) by nia. apply mod_qr; lia. }
+    assert (Nat.min k c = c) by (unfold base in Eb; nia). unfold base in *. split; nia.
+  - split. { rewrite Eb. replace (q * c + r + (i - r)) with (q * c + i) by lia. apply mod_qr; lia. }
+    unfold base in *. destruct (le_lt_dec k c); [|split; nia].
+    assert (Nat.min k c = k) by lia. split; nia.
+Qed.
+
+Theorem every_slot_spec g n c E xs i :
+  0 < E -> E <= c -> 1 <= n -> width E xs ->
+  let s := pair_run (n_step_info g) n c xs in
+  i < size (mem s) ->
+  exists k e r,
+    k + n <= length xs /\ e < E /\
+    nth i (store (nbuf s)) None = Some r /\
+    nth i (store (mem s)) None = Some (cellat xs k e) /\
+    let m := cut (window n xs k) in
+    ok_window n xs e k m /\
+    ob r = ob (cellat xs k e) /\ ac r = ac (cellat xs k e) /\
+    (rw r == disc_sum g xs k e m)%Q /\
+    nx r = nx (cellat xs (k + m - 1) e) /\ dn r = dn (cellat xs (k + m - 1) e).
+Proof.
+  intros HE HEc Hn Hw. cbv zeta. intros Hi.
+  destruct (lens_and_return g n c E xs HE HEc Hn Hw) as (_ & Hsz & _). cbv zeta in Hsz.
+  rewrite Hsz in Hi.
+  destruct (slot_position c (count n xs * E) i ltac:(lia) Hi) as (p & Hp & Hlt & Hlive).
+  pose proof (Nat.div_mod p E ltac:(lia)) as Hdm.
+  assert (He : p mod E < E) by (apply Nat.mod_upper_bound; lia).
+  set (k := p / E) in *. set (e := p mod E) in *.
+  assert (Hk : k < count n xs) by nia.
+  assert (Hkn : k + n <= length xs) by (unfold count in Hk; lia).
+  assert (Hpk : p = k * E + e) by lia.
+  rewrite Hpk in Hlive, Hp.
+  destruct (stored_spec g n c E xs k e HE HEc Hn Hw Hkn He Hlive) as (r & H1 & H2 & Hrest).
+  cbv zeta in H1, H2. rewrite Hp in H1, H2.
+  exists k, e, r. repeat split; auto; apply Hrest.
+Qed.
+
+(* what the learner receives: gathering both storages with the same live indices yields, row by
+   row, an n-step record and the raw transition it starts from *)
+Theorem sampled_aligned_lemma g n c E xs idx :
+  0 < E -> E <= c -> 1 <= n -> width E xs ->
+  let s := pair_run (n_step_info g) n c xs in
+  Forall (fun i => i < size (mem s)) idx ->
+  Forall2 (fun a b => exists r y, a = Some r /\ b = Some y /\ ob r = ob y /\ ac r = ac y)
+          (gather (store (nbuf s)) idx) (gather (store (mem s)) idx).
+Proof.
+  intros HE HEc Hn Hw. cbv zeta. unfold gather. induction 1 as [|i idx Hi _ IH]; cbn [map]; constructor; auto.
+  destruct (every_slot_spec g n c E xs i HE HEc Hn Hw Hi) as (k & e & r & _ & _ & H1 & H2 & _ & H3 & H4 & _).
+  exists r, (cellat xs k e). auto.
 Qed.
